@@ -7,6 +7,7 @@ from props.rec_common import *  # noqa: F401,F403
 from props.c05 import outermost_completed
 
 ID = "C01"
+LOG_LEVEL_INVARIANT = True      # (harness/vp.py: a sample of the cases again with logging at DEBUG; same observables)
 RUN_MODULE = "RunC01"
 SHARD = 40
 RULE = ("one case = a deterministic, functional program recorded through a real TapeRecorder into one of the three real cassettes "
